@@ -50,6 +50,8 @@ type Options struct {
 	Workers int // 0 = NumCPU
 	// MaxExecs caps executions per scenario (0 = none); hitting it marks the run incomplete.
 	MaxExecs int
+	// NoDeepen switches off the thorough tier's use of left-over budget for deeper bounds.
+	NoDeepen bool
 }
 
 type replayRec struct {
@@ -237,7 +239,8 @@ func subtree(sc *Scenario, it item, st *stats, split bool) (children []item) {
 }
 
 func workerMain() {
-	runtime.GOMAXPROCS(2)
+	// one P: hand-offs between managed goroutines stay on one processor (4x faster than 16 Ps)
+	runtime.GOMAXPROCS(1)
 	in := bufio.NewReaderSize(os.Stdin, 1<<20)
 	out := bufio.NewWriter(os.Stdout)
 	for {
@@ -263,6 +266,33 @@ func workerMain() {
 		if err != nil {
 			return
 		}
+	}
+}
+
+// exploreAt explores one scenario to the given deviation bound into st.
+func exploreAt(sc *Scenario, bound int, deadline int64, maxExecs, nw int, st *stats) {
+	root := item{Sc: sc.Name, Bound: bound, Deadline: deadline, MaxExecs: maxExecs}
+	// the root execution in the parent; its alternatives (level 1) go to the
+	// workers, split once more only when there are too few of them to keep
+	// every worker busy
+	oldProcs := runtime.GOMAXPROCS(1)
+	work := subtree(sc, root, st, true)
+	if len(work) > 0 && len(work) < 4*nw {
+		var lvl2 []item
+		for _, it := range work {
+			lvl2 = append(lvl2, subtree(sc, it, st, true)...)
+		}
+		work = lvl2
+	}
+	if len(work) > 0 && (nw <= 1 || len(work) < 8 || os.Getenv("VERIF_BIN") == "") {
+		for _, it := range work {
+			subtree(sc, it, st, false)
+		}
+		work = nil
+	}
+	runtime.GOMAXPROCS(oldProcs)
+	if len(work) > 0 {
+		runWorkers(nw, work, st)
 	}
 }
 
@@ -295,22 +325,7 @@ func Explore(r *eng.Run, scs []*Scenario, opt Options) {
 		if bound < 0 {
 			bound = 0
 		}
-		root := item{Sc: sc.Name, Bound: bound, Deadline: deadline, MaxExecs: opt.MaxExecs}
-		// level 0 and 1 in the parent, deeper subtrees in workers
-		lvl1 := subtree(sc, root, st, true)
-		var lvl2 []item
-		for _, it := range lvl1 {
-			lvl2 = append(lvl2, subtree(sc, it, st, true)...)
-		}
-		if len(lvl2) > 0 {
-			if nw <= 1 || len(lvl2) < 8 || os.Getenv("VERIF_BIN") == "" {
-				for _, it := range lvl2 {
-					subtree(sc, it, st, false)
-				}
-			} else {
-				runWorkers(nw, lvl2, st)
-			}
-		}
+		exploreAt(sc, bound, deadline, opt.MaxExecs, nw, st)
 		if st.CapHit {
 			r.Incomplete(fmt.Sprintf("scenario %s: budget/cap hit after %d executions", sc.Name, st.Execs))
 		}
@@ -334,6 +349,51 @@ func Explore(r *eng.Run, scs []*Scenario, opt Options) {
 			r.Report(v)
 		}
 		total.merge(st)
+	}
+	// Thorough tier: spend what is left of the budget on the next deviation
+	// bound(s), scenario by scenario (smallest first). The claim of the run
+	// stays the base bound; a deeper bound that completes is recorded per
+	// scenario, one that is cut by the budget is recorded as such and does not
+	// make the run "incomplete". Violations found there are reported as usual.
+	if r.Thorough() && !opt.NoDeepen && r.DeadlineUnix() > 0 && total.Divergences == 0 {
+		order := append([]*Scenario{}, scs...)
+		sort.SliceStable(order, func(i, j int) bool {
+			a, _ := perSc[order[i].Name]["executions"].(int)
+			b, _ := perSc[order[j].Name]["executions"].(int)
+			return a < b
+		})
+		for extra := 1; extra <= 2; extra++ {
+			for _, sc := range order {
+				info := perSc[sc.Name]
+				if info == nil || info["deeper_cut_by_budget"] != nil {
+					continue
+				}
+				left := r.DeadlineUnix() - time.Now().Unix()
+				if left < 60 {
+					break
+				}
+				base, _ := info["deviation_bound"].(int)
+				st := newStats()
+				exploreAt(sc, base+extra, r.DeadlineUnix()-20, opt.MaxExecs, nw, st)
+				for _, v := range st.Viols {
+					r.Report(v)
+				}
+				if st.CapHit || st.Divergences > 0 {
+					info["deeper_cut_by_budget"] = map[string]any{"bound": base + extra, "executions_done": st.Execs}
+					total.Execs += st.Execs
+					total.Points += st.Points
+					continue
+				}
+				info["deeper_bound_completed"] = base + extra
+				info["deeper_executions"] = st.Execs
+				total.Execs += st.Execs
+				total.Points += st.Points
+				total.Deviating += st.Deviating
+				for o := range st.Outcomes {
+					r.Outcome(sc.Name + ":" + o)
+				}
+			}
+		}
 	}
 	stopPool()
 	r.Eval(total.Execs)
@@ -361,7 +421,7 @@ func startPool(nw int) {
 	for len(pool) < nw {
 		cmd := exec.Command(os.Getenv("VERIF_BIN"), "-worker")
 		cmd.Stderr = os.Stderr
-		cmd.Env = append(os.Environ(), "GOMAXPROCS=2")
+		cmd.Env = append(os.Environ(), "GOMAXPROCS=1")
 		stdin, _ := cmd.StdinPipe()
 		stdout, _ := cmd.StdoutPipe()
 		if err := cmd.Start(); err != nil {
